@@ -1,5 +1,6 @@
 use anyhow::{Context, Result};
 use serde_json::{json, Value};
+use wasm_encoder::*;
 
 /// operator sequences (Debug form) of every function body of a binary
 pub fn operators(wasm: &[u8]) -> Result<Vec<Vec<String>>> {
@@ -20,29 +21,504 @@ pub fn operators(wasm: &[u8]) -> Result<Vec<Vec<String>>> {
 pub fn roundtrip(wasm: &[u8]) -> Result<Vec<u8>> {
     let mut config = walrus::ModuleConfig::new();
     config.generate_producers_section(false);
+    config.generate_name_section(false);
     let mut m = config.parse(wasm).context("walrus parse")?;
     Ok(m.emit_wasm())
 }
 
-/// `wat-roundtrip FILE`: the bodies must be the same operator sequences after the round trip
-/// (function order may change: bodies are compared as multisets of sequences; nops are ignored).
+/// what the property allows walrus to change in a body: nops dropped; statically unreachable operators dropped
+/// (reachability by the usual rules: nothing after br / br_table / return / unreachable in a frame; the end of a
+/// block or if is reachable if an arm falls through or a reachable branch targets it); an empty `else` arm may
+/// be added.  Any sound dead-code elision is therefore accepted; anything else is a difference.
+pub fn normalize(ops: &[String]) -> Vec<String> {
+    #[derive(Clone)]
+    struct Frame { is_loop: bool, is_if: bool, has_else: bool, entry: bool, cur: bool, then_falls: bool, branched: bool }
+    let mut frames: Vec<Frame> = vec![Frame { is_loop: false, is_if: false, has_else: false, entry: true, cur: true, then_falls: false, branched: false }];
+    let mut out: Vec<String> = vec![];
+    let depth_of = |s: &str| -> Vec<usize> {
+        // label depths mentioned by Br / BrIf / BrTable (Debug text)
+        let mut v = vec![];
+        if let Some(k) = s.find("relative_depth: ") {
+            let t: String = s[k + 16..].chars().take_while(|c| c.is_ascii_digit()).collect();
+            v.push(t.parse().unwrap_or(0));
+        }
+        v
+    };
+    for o in ops {
+        let reachable = frames.last().unwrap().cur;
+        let opens = o.starts_with("Block ") || o.starts_with("Loop ") || o.starts_with("If ");
+        if opens {
+            frames.push(Frame { is_loop: o.starts_with("Loop "), is_if: o.starts_with("If "), has_else: false, entry: reachable, cur: reachable, then_falls: false, branched: false });
+            if reachable { out.push(o.clone()); }
+            continue;
+        }
+        if o == "Else" {
+            let f = frames.last_mut().unwrap();
+            f.then_falls = f.cur;
+            f.has_else = true;
+            f.cur = f.entry;
+            if f.entry { out.push(o.clone()); }
+            continue;
+        }
+        if o == "End" {
+            let f = frames.pop().unwrap();
+            let end_reachable = f.cur || f.then_falls || (f.branched && !f.is_loop) || (f.is_if && !f.has_else && f.entry);
+            if f.entry { out.push(o.clone()); }
+            if let Some(p) = frames.last_mut() {
+                p.cur = f.entry && end_reachable;
+            }
+            continue;
+        }
+        if !reachable || o == "Nop" {
+            continue;
+        }
+        out.push(o.clone());
+        let n = frames.len();
+        if o.starts_with("BrTable") {
+            // targets are not in the Debug text of the reader-backed table: be conservative, every enclosing frame
+            for f in frames.iter_mut() { f.branched = true; }
+            frames.last_mut().unwrap().cur = false;
+        } else if o.starts_with("Br {") {
+            for d in depth_of(o) { if d < n { frames[n - 1 - d].branched = true; } }
+            frames.last_mut().unwrap().cur = false;
+        } else if o.starts_with("BrIf") {
+            for d in depth_of(o) { if d < n { frames[n - 1 - d].branched = true; } }
+        } else if o == "Unreachable" || o == "Return" || o.starts_with("ReturnCall") {
+            frames.last_mut().unwrap().cur = false;
+        }
+    }
+    // empty else arms: `Else` immediately followed by `End`
+    let mut res: Vec<String> = vec![];
+    let mut i = 0;
+    while i < out.len() {
+        if out[i] == "Else" && i + 1 < out.len() && out[i + 1] == "End" {
+            i += 1;
+            continue;
+        }
+        res.push(out[i].clone());
+        i += 1;
+    }
+    // max_align is derived from the opcode by the decoder; it is not an immediate
+    res.iter().map(|s| strip_max_align(s)).collect()
+}
+
+fn strip_max_align(s: &str) -> String {
+    if let Some(k) = s.find("max_align: ") {
+        let rest = &s[k..];
+        if let Some(e) = rest.find(", ") {
+            return format!("{}{}", &s[..k], &rest[e + 2..]);
+        }
+    }
+    s.to_string()
+}
+
+pub fn compare_bodies(input: &[u8], output: &[u8]) -> Result<Option<Value>> {
+    let mut a: Vec<Vec<String>> = operators(input)?.iter().map(|f| normalize(f)).collect();
+    let mut b: Vec<Vec<String>> = operators(output)?.iter().map(|f| normalize(f)).collect();
+    a.sort();
+    b.sort();
+    if a != b {
+        return Ok(Some(json!({"input_ops": a, "output_ops": b})));
+    }
+    Ok(None)
+}
+
+/// `wat-roundtrip FILE`
 pub fn wat_roundtrip(path: &str) -> Result<Value> {
     let text = std::fs::read_to_string(path)?;
     let wasm = wat::parse_str(&text).context("wat")?;
     let out = roundtrip(&wasm)?;
-    let norm = |v: Vec<Vec<String>>| {
-        let mut v: Vec<Vec<String>> = v
-            .into_iter()
-            .map(|f| f.into_iter().filter(|o| o != "Nop").collect())
-            .collect();
-        v.sort();
-        v
-    };
-    let a = norm(operators(&wasm)?);
-    let b = norm(operators(&out)?);
-    Ok(json!({"violated": a != b, "input_ops": a, "output_ops": b, "file": path}))
+    let diff = compare_bodies(&wasm, &out)?;
+    Ok(json!({"violated": diff.is_some(), "diff": diff, "file": path}))
 }
 
-pub fn op_roundtrip(_args: &[String]) -> Result<Value> {
-    anyhow::bail!("not built yet")
+// ------------------------------------------------------------------------------------------------
+// the operator battery: every paired operator with boundary immediates, in a skeleton module that
+// defines two entities of every kind; operand types are found by asking the real validator.
+
+const VT: [ValType; 7] = [
+    ValType::I32,
+    ValType::I64,
+    ValType::F32,
+    ValType::F64,
+    ValType::V128,
+    ValType::Ref(RefType::FUNCREF),
+    ValType::Ref(RefType::EXTERNREF),
+];
+
+fn const_of(t: ValType) -> Instruction<'static> {
+    match t {
+        ValType::I32 => Instruction::I32Const(0),
+        ValType::I64 => Instruction::I64Const(0),
+        ValType::F32 => Instruction::F32Const(0.0),
+        ValType::F64 => Instruction::F64Const(0.0),
+        ValType::V128 => Instruction::V128Const(0),
+        ValType::Ref(r) if r == RefType::FUNCREF => Instruction::RefNull(HeapType::Abstract { shared: false, ty: AbstractHeapType::Func }),
+        _ => Instruction::RefNull(HeapType::Abstract { shared: false, ty: AbstractHeapType::Extern }),
+    }
+}
+
+/// skeleton: types, 2 imported-less functions, 2 tables, 3 memories (0: shared 32-bit, 1: 64-bit, 2: 32-bit),
+/// 2 globals, 2 passive data, 2 passive elems; function 1 has the body under test
+pub fn skeleton(operands: &[ValType], instr: &Instruction<'static>) -> Vec<u8> {
+    let mut m = Module::new();
+    let mut types = TypeSection::new();
+    types.function([], []);
+    types.function([ValType::I32], [ValType::I32]);
+    m.section(&types);
+    let mut funcs = FunctionSection::new();
+    funcs.function(0);
+    funcs.function(0);
+    m.section(&funcs);
+    let mut tables = TableSection::new();
+    tables.table(TableType { element_type: RefType::FUNCREF, minimum: 1, maximum: None, table64: false, shared: false });
+    tables.table(TableType { element_type: RefType::FUNCREF, minimum: 1, maximum: None, table64: false, shared: false });
+    m.section(&tables);
+    let mut mems = MemorySection::new();
+    mems.memory(MemoryType { minimum: 1, maximum: Some(1), memory64: false, shared: true, page_size_log2: None });
+    mems.memory(MemoryType { minimum: 1, maximum: None, memory64: true, shared: false, page_size_log2: None });
+    mems.memory(MemoryType { minimum: 1, maximum: None, memory64: false, shared: false, page_size_log2: None });
+    m.section(&mems);
+    let mut globals = GlobalSection::new();
+    globals.global(GlobalType { val_type: ValType::I32, mutable: true, shared: false }, &ConstExpr::i32_const(0));
+    globals.global(GlobalType { val_type: ValType::I32, mutable: true, shared: false }, &ConstExpr::i32_const(1));
+    m.section(&globals);
+    let mut exports = ExportSection::new();
+    exports.export("f", ExportKind::Func, 1);
+    m.section(&exports);
+    let mut elems = ElementSection::new();
+    elems.passive(Elements::Functions(&[0]));
+    elems.passive(Elements::Functions(&[1]));
+    m.section(&elems);
+    m.section(&DataCountSection { count: 2 });
+    let mut code = CodeSection::new();
+    // function 0 is kept larger than function 1 so that walrus's (size desc, id) ordering leaves indices alone
+    let mut f0 = Function::new([]);
+    for _ in 0..64 {
+        f0.instruction(&Instruction::I32Const(7));
+        f0.instruction(&Instruction::Drop);
+    }
+    f0.instruction(&Instruction::End);
+    code.function(&f0);
+    // both locals are used, so local compaction is the identity
+    let mut f1 = Function::new([(2, ValType::I32)]);
+    for l in 0..2 {
+        f1.instruction(&Instruction::LocalGet(l));
+        f1.instruction(&Instruction::Drop);
+    }
+    for t in operands {
+        f1.instruction(&const_of(*t));
+    }
+    f1.instruction(instr);
+    f1.instruction(&Instruction::Unreachable);
+    f1.instruction(&Instruction::End);
+    code.function(&f1);
+    m.section(&code);
+    let mut data = DataSection::new();
+    data.passive([1u8, 2, 3]);
+    data.passive([4u8]);
+    m.section(&data);
+    m.finish()
+}
+
+fn walrus_features() -> wasmparser::WasmFeatures {
+    use wasmparser::WasmFeatures as F;
+    let mut f = F::empty();
+    for x in [F::FLOATS, F::MUTABLE_GLOBAL, F::SATURATING_FLOAT_TO_INT, F::SIGN_EXTENSION, F::MULTI_VALUE, F::REFERENCE_TYPES,
+              F::BULK_MEMORY, F::SIMD, F::RELAXED_SIMD, F::TAIL_CALL, F::MULTI_MEMORY, F::MEMORY64, F::THREADS] {
+        f.insert(x);
+    }
+    f
+}
+
+fn validates(wasm: &[u8]) -> bool {
+    wasmparser::Validator::new_with_features(walrus_features()).validate_all(wasm).is_ok()
+}
+
+/// operand types (bottom to top) under which the validator accepts `instr` in the skeleton, if any
+pub fn find_operands(instr: &Instruction<'static>) -> Option<Vec<ValType>> {
+    for n in 0..=4usize {
+        let total = 7usize.pow(n as u32);
+        for code in 0..total {
+            let mut c = code;
+            let mut ops = Vec::with_capacity(n);
+            for _ in 0..n {
+                ops.push(VT[c % 7]);
+                c /= 7;
+            }
+            // wasm-encoder asserts lane bounds while encoding: such a sample is simply not encodable
+            let w = std::panic::catch_unwind(|| skeleton(&ops, instr));
+            match w {
+                Ok(w) => {
+                    if validates(&w) {
+                        return Some(ops);
+                    }
+                }
+                Err(_) => return None,
+            }
+        }
+    }
+    None
+}
+
+/// `op [NAME...]`: round trip every sample of the named operators (all when none is named)
+pub fn op_roundtrip(args: &[String]) -> Result<Value> {
+    let all = crate::gen_ops::samples();
+    std::panic::set_hook(Box::new(|_| {}));
+    let mut checked = 0usize;
+    let mut distinct_ops = 0usize;
+    let mut rejected = vec![];
+    let mut failures = vec![];
+    for (name, proposal, instrs) in all {
+        if !args.is_empty() && !args.iter().any(|a| a == name) {
+            continue;
+        }
+        let mut any = false;
+        for i in instrs {
+            let ops = match find_operands(&i) {
+                Some(o) => o,
+                None => continue,
+            };
+            any = true;
+            let wasm = skeleton(&ops, &i);
+            checked += 1;
+            match std::panic::catch_unwind(|| roundtrip(&wasm)) {
+                Ok(Ok(out)) => {
+                    if let Some(d) = compare_bodies(&wasm, &out)? {
+                        if failures.len() < 20 {
+                            failures.push(json!({"operator": name, "instruction": format!("{:?}", i), "diff": d,
+                                "input_wasm_hex": hex(&wasm)}));
+                        }
+                    }
+                }
+                Ok(Err(e)) => {
+                    if failures.len() < 20 {
+                        failures.push(json!({"operator": name, "instruction": format!("{:?}", i), "error": format!("{e:#}"),
+                            "input_wasm_hex": hex(&wasm)}));
+                    }
+                }
+                Err(_) => {
+                    if failures.len() < 20 {
+                        failures.push(json!({"operator": name, "instruction": format!("{:?}", i), "panic": true, "input_wasm_hex": hex(&wasm)}));
+                    }
+                }
+            }
+        }
+        if any {
+            distinct_ops += 1;
+        } else {
+            rejected.push(json!([name, proposal]));
+        }
+    }
+    Ok(json!({"violated": !failures.is_empty(), "samples_checked": checked, "operators_accepted": distinct_ops,
+              "operators_rejected_by_validator": rejected, "failures": failures}))
+}
+
+pub fn hex(b: &[u8]) -> String {
+    b.iter().map(|x| format!("{:02x}", x)).collect()
+}
+
+pub fn unhex(s: &str) -> Vec<u8> {
+    (0..s.len() / 2).map(|i| u8::from_str_radix(&s[2 * i..2 * i + 2], 16).unwrap()).collect()
+}
+
+/// `wasm-roundtrip HEX`: replay a stored failing module
+pub fn wasm_roundtrip(hexs: &str) -> Result<Value> {
+    let wasm = unhex(hexs);
+    let out = roundtrip(&wasm)?;
+    let diff = compare_bodies(&wasm, &out)?;
+    Ok(json!({"violated": diff.is_some(), "diff": diff}))
+}
+
+// ------------------------------------------------------------------------------------------------
+// control-flow battery: every nesting of block / loop / if / if-else with br / br_if / br_table / return /
+// unreachable / plain instructions, up to a node budget (exhaustive for the stated budget)
+#[derive(Clone, Debug)]
+enum St {
+    Plain(i32),
+    Block(Vec<St>),
+    Loop(Vec<St>),
+    If(Vec<St>, Option<Vec<St>>),
+    Br(u32),
+    BrIf(u32),
+    BrTable(Vec<u32>, u32),
+    Return,
+    Unreachable,
+}
+
+fn gen_seqs(budget: usize, depth: u32, max_depth: u32, out: &mut Vec<Vec<St>>) {
+    // all sequences with total node count <= budget
+    out.push(vec![]);
+    if budget == 0 {
+        return;
+    }
+    let mut firsts: Vec<(St, usize)> = vec![]; // (statement, nodes used)
+    firsts.push((St::Plain(1), 1));
+    firsts.push((St::Return, 1));
+    firsts.push((St::Unreachable, 1));
+    for d in 0..=depth {
+        firsts.push((St::Br(d), 1));
+        firsts.push((St::BrIf(d), 1));
+    }
+    if depth >= 1 {
+        firsts.push((St::BrTable(vec![0, depth], depth - 1), 1));
+    } else {
+        firsts.push((St::BrTable(vec![0], 0), 1));
+    }
+    if depth < max_depth {
+        for inner_budget in 0..budget {
+            let mut inner = vec![];
+            gen_seqs(inner_budget, depth + 1, max_depth, &mut inner);
+            for body in inner.iter().filter(|b| count(b) == inner_budget) {
+                firsts.push((St::Block(body.clone()), 1 + inner_budget));
+                firsts.push((St::Loop(body.clone()), 1 + inner_budget));
+                firsts.push((St::If(body.clone(), None), 1 + inner_budget));
+                // else arms: split remaining budget
+                for else_budget in 0..(budget - inner_budget) {
+                    let mut els = vec![];
+                    gen_seqs(else_budget, depth + 1, max_depth, &mut els);
+                    for e in els.iter().filter(|b| count(b) == else_budget) {
+                        if 1 + inner_budget + else_budget <= budget {
+                            firsts.push((St::If(body.clone(), Some(e.clone())), 1 + inner_budget + else_budget));
+                        }
+                    }
+                }
+            }
+        }
+    }
+    for (st, used) in firsts {
+        if used > budget {
+            continue;
+        }
+        let mut rest = vec![];
+        gen_seqs(budget - used, depth, max_depth, &mut rest);
+        for r in rest {
+            let mut s = vec![st.clone()];
+            s.extend(r);
+            out.push(s);
+        }
+    }
+}
+
+fn count(s: &[St]) -> usize {
+    s.iter()
+        .map(|x| match x {
+            St::Block(b) | St::Loop(b) => 1 + count(b),
+            St::If(a, b) => 1 + count(a) + b.as_ref().map(|e| count(e)).unwrap_or(0),
+            _ => 1,
+        })
+        .sum()
+}
+
+fn emit_seq(f: &mut Function, s: &[St], k: &mut i32) {
+    for st in s {
+        match st {
+            St::Plain(_) => {
+                *k += 1;
+                f.instruction(&Instruction::I32Const(*k));
+                f.instruction(&Instruction::Drop);
+            }
+            St::Block(b) => {
+                f.instruction(&Instruction::Block(BlockType::Empty));
+                emit_seq(f, b, k);
+                f.instruction(&Instruction::End);
+            }
+            St::Loop(b) => {
+                f.instruction(&Instruction::Loop(BlockType::Empty));
+                emit_seq(f, b, k);
+                f.instruction(&Instruction::End);
+            }
+            St::If(a, e) => {
+                f.instruction(&Instruction::I32Const(1));
+                f.instruction(&Instruction::If(BlockType::Empty));
+                emit_seq(f, a, k);
+                if let Some(e) = e {
+                    f.instruction(&Instruction::Else);
+                    emit_seq(f, e, k);
+                }
+                f.instruction(&Instruction::End);
+            }
+            St::Br(d) => {
+                f.instruction(&Instruction::Br(*d));
+            }
+            St::BrIf(d) => {
+                f.instruction(&Instruction::I32Const(0));
+                f.instruction(&Instruction::BrIf(*d));
+            }
+            St::BrTable(t, d) => {
+                f.instruction(&Instruction::I32Const(0));
+                f.instruction(&Instruction::BrTable(t.clone().into(), *d));
+            }
+            St::Return => {
+                f.instruction(&Instruction::Return);
+            }
+            St::Unreachable => {
+                f.instruction(&Instruction::Unreachable);
+            }
+        }
+    }
+}
+
+fn cf_module(s: &[St]) -> Vec<u8> {
+    let mut m = Module::new();
+    let mut types = TypeSection::new();
+    types.function([], []);
+    m.section(&types);
+    let mut funcs = FunctionSection::new();
+    funcs.function(0);
+    m.section(&funcs);
+    let mut exports = ExportSection::new();
+    exports.export("f", ExportKind::Func, 0);
+    m.section(&exports);
+    let mut code = CodeSection::new();
+    let mut f = Function::new([]);
+    let mut k = 0;
+    emit_seq(&mut f, s, &mut k);
+    f.instruction(&Instruction::End);
+    code.function(&f);
+    m.section(&code);
+    m.finish()
+}
+
+/// `cf BUDGET [MAX_DEPTH]`: exhaustive for the budget; modules the validator rejects are skipped
+pub fn cf_roundtrip(args: &[String]) -> Result<Value> {
+    let budget: usize = args.get(0).map(|s| s.parse().unwrap_or(4)).unwrap_or(4);
+    let max_depth: u32 = args.get(1).map(|s| s.parse().unwrap_or(3)).unwrap_or(3);
+    std::panic::set_hook(Box::new(|_| {}));
+    let mut all = vec![];
+    gen_seqs(budget, 0, max_depth, &mut all);
+    let mut checked = 0usize;
+    let mut skipped = 0usize;
+    let mut failures = vec![];
+    for s in &all {
+        let wasm = cf_module(s);
+        if !validates(&wasm) {
+            skipped += 1;
+            continue;
+        }
+        checked += 1;
+        match std::panic::catch_unwind(|| roundtrip(&wasm)) {
+            Ok(Ok(out)) => {
+                let valid_out = validates(&out);
+                let d = compare_bodies(&wasm, &out)?;
+                if d.is_some() || !valid_out {
+                    if failures.len() < 10 {
+                        failures.push(json!({"program": format!("{:?}", s), "diff": d, "output_validates": valid_out, "input_wasm_hex": hex(&wasm)}));
+                    }
+                }
+            }
+            Ok(Err(e)) => {
+                if failures.len() < 10 {
+                    failures.push(json!({"program": format!("{:?}", s), "error": format!("{e:#}"), "input_wasm_hex": hex(&wasm)}));
+                }
+            }
+            Err(_) => {
+                if failures.len() < 10 {
+                    failures.push(json!({"program": format!("{:?}", s), "panic": true, "input_wasm_hex": hex(&wasm)}));
+                }
+            }
+        }
+    }
+    Ok(json!({"violated": !failures.is_empty(), "programs_generated": all.len(), "programs_checked": checked,
+              "rejected_by_validator": skipped, "budget": budget, "max_depth": max_depth, "failures": failures}))
 }
